@@ -30,6 +30,7 @@ def world(ctx, eng, fam, st):
                         "ITerm2Image": ("GraphicsImage",), "GraphicsImage": ("BaseImage",), "BaseImage": ()})
     eng.genv.update(UTIL_ERRS)
     eng.float_trunc_unstable = True     # int() of a float that is mathematically an integer: that integer or its neighbour towards zero
+    eng.float_cmp_unstable = True       # an order comparison of floats that are mathematically equal: either outcome
     eng.genv["Size"] = ctx.ns("term_image.image.common").d["Size"]
     eng.classes["Size"] = ()
     eng.genv["get_terminal_size"] = Fn(lambda e, s, a, k: [(Rec("terminal_size", {"columns": tw, "lines": th}), s)])
